@@ -43,7 +43,7 @@ class AppWorld:
         out = self.fab.reset_out()
         exps = self.model.ctrl(i, payload, src)
         if exps is not None:
-            mm = trxmodel.match(exps, out)
+            mm = trxmodel.match(exps, out, self.model)
             if mm:
                 try:
                     verb = bytes(payload[4:]).split(b" ")[0].split(b"\0")[0].decode("ascii")[:20] or "-"
@@ -54,19 +54,66 @@ class AppWorld:
         self.last_out = out
         return self._common("after %r to %s" % (payload, d.name), v)
 
-    def data(self, i, payload):
+    def data(self, i, payload, check_noeffect=False):
         d = self.defs[i]
         v = []
+        before = world.snapshot(self.app) if check_noeffect else None
         self.fab.inject(d.data, payload, (d.addr, d.data + 100))
         try:
             world.pump(self.app)
         except Exception as e:
-            v.append(("exception", "data to %s: %s: %s" % (d.name, type(e).__name__, e)))
+            v.append(("exception", "data %s to %s: %s: %s" % (bytes(payload[:16]).hex(), d.name, type(e).__name__, e)))
         out = self.fab.reset_out()
         if out:
             v.append(("data-immediate", "datagram(s) emitted on arrival of a burst, before its tick: %r" % (out,)))
         self.last_id = self.model.data(i, payload)
+        if check_noeffect and self.last_id is None and not v and world.snapshot(self.app) != before:
+            v.append(("data-effect", "data datagram %s (len %d) to %s is not acceptable per the reference but changed the transceiver state"
+                      % (bytes(payload[:12]).hex(), len(payload), d.name)))
         return self._common("after burst to %s" % d.name, v)
+
+    def ctrl_fault(self, i, payload, src=None):
+        """A control datagram that is not a strictly well-formed command: judged by class (see
+        trxmodel.classify_ctrl).  Returns (violations, state_may_have_changed)."""
+        d = self.defs[i]
+        src = src or (d.addr, d.ctrl + 100)
+        cls = trxmodel.classify_ctrl(payload)
+        if cls == "VALID":
+            return self.ctrl(i, payload, src), False
+        v = []
+        before = world.snapshot(self.app)
+        self.fab.inject(d.ctrl, payload, src)
+        try:
+            world.pump(self.app)
+        except Exception as e:
+            self.fab.reset_out()
+            return [("exception", "%s control datagram %r to %s: %s: %s" % (cls, bytes(payload[:60]), d.name, type(e).__name__, e))], True
+        out = self.fab.reset_out()
+        what = "%s control datagram %r to %s" % (cls, bytes(payload[:60]), d.name)
+        if cls == "IGNORE":
+            if out:
+                v.append(("nonCMD-answered", "%s: answered with %r" % (what, out[0][3][:60])))
+        else:
+            if len(out) > 1:
+                v.append(("multiple-replies", "%s: %d datagrams" % (what, len(out))))
+            for o in out[:1]:
+                p = o[3]
+                if (o[1], o[2]) != src:
+                    v.append(("reply-dest", "%s: reply sent to %r, sender was %r" % (what, (o[1], o[2]), src)))
+                if cls != "AMBIG" and not (p.startswith(b"RSP ") and p.endswith(b"\0")):
+                    v.append(("reply-form", "%s: reply %r" % (what, p[:60])))
+                if cls == "REJECT":
+                    toks = p[:-1].split(b" ")
+                    try:
+                        st = int(toks[2])
+                    except (ValueError, IndexError):
+                        st = None
+                    if st == 0 or st is None:
+                        v.append(("malformed-acknowledged", "%s: acknowledged with %r instead of an error status" % (what, p[:60])))
+        changed = world.snapshot(self.app) != before
+        if changed and cls != "AMBIG":
+            v.append(("malformed-effect", "%s changed the transceiver state" % what))
+        return v, changed
 
     def can_tick(self):
         return self.gen_alive() > 0
@@ -86,7 +133,7 @@ class AppWorld:
         recs = world.capture.reset()
         exps, stale = self.model.tick()
         if exps is not None:
-            mm = trxmodel.match(exps, out)
+            mm = trxmodel.match(exps, out, self.model)
             if mm:
                 v.append(("tick", "tick fn=%d: %s" % (fn, mm)))
         nstale = sum(1 for lv, msg in recs if "Stale TRXD message" in msg)
@@ -112,7 +159,7 @@ class AppWorld:
         exps, stale = m.tick()
         m.fn, m.clock_running, m.ind_period = saved
         if exps is not None:
-            mm = trxmodel.match(exps, out)
+            mm = trxmodel.match(exps, out, self.model)
             if mm:
                 v.append(("tick", "handler fn=%d: %s" % (fn, mm)))
         nstale = sum(1 for lv, msg in recs if "Stale TRXD message" in msg)
